@@ -57,7 +57,7 @@ def relay_out_topics(beh, tin):
     drop = set(beh.get('drop') or ())
     only = beh.get('only')
     out = [ren.get(t, t) for t in tin if t not in drop and (only is None or t in only) and not t.startswith('_')]
-    return out + list(beh.get('add') or ())
+    return list(dict.fromkeys(out + list(beh.get('add') or ())))
 
 
 def rand_source_beh(rng, nframes, multi=True):
